@@ -1,6 +1,7 @@
 package props
 
 import (
+	"strings"
 	"testing"
 
 	"pgregory.net/rapid"
@@ -98,6 +99,72 @@ func TestC01_Model(t *testing.T) {
 			c.NonTrivial(text+"\x00"+doc.JSON(), func() any {
 				return map[string]any{"expr": text, "doc": doc.JSON(), "result": res.V.JSON()}
 			})
+		}
+	})
+}
+
+// C01 (idioms): the first / last / rest / count / flatten of a filtered,
+// projected, sliced or sorted array, written with a pipe or with parentheses.
+// These are the shapes an implementation is tempted to evaluate in one fused
+// pass; every one of them must still drop nulls, keep order and stop the
+// projection where the grammar says. Small arrays over a palette of elements
+// that conditions treat differently (null, false-like and true-like values,
+// records with and without the tested member).
+func TestC01_Idioms(t *testing.T) {
+	c := collector("C01", "idioms")
+	elems := []string{`null`, `{"ok":true,"n":1}`, `{"n":2}`, `{"ok":false,"n":0}`, `{"ok":null,"n":3,"t":[1,null]}`, `1`, `0`, `"s"`, `""`, `[]`, `[null]`, `{}`, `false`, `true`, `[1,2]`}
+	lefts := []string{"x[?!ok]", "x[?ok]", "x[?n]", "x[?!n]", "x[?@]", "x[?!@]", "x[?ok == `null`]", "x[?ok != `true`]", "x[?n > `0`]", "x[?n == `null` || n < `3`]", "x[*]", "x[*].n", "x[*].ok", "x[]", "x[][]", "x[1:]", "x[:2]", "x[::-1]", "x[::2]",
+		"x[*].t", "x[?t].t[]", "sort_by(x[?n], &n)", "x[?n] | sort_by(@, &n)", "map(&n, x)", "x[?type(@) == 'object']", "x[?type(@) != 'object']", "[x[0], x[1]]", "x[*].[n, ok]", "x[?n].{n: n}", "reverse(x)", "to_array(x)", "x"}
+	rights := []string{"[0]", "[-1]", "[1]", "[0:1]", "[1:]", "[:-1]", "[]", "[*]", "[::-1]", "length(@)", "[0].n", "[-1].ok", "reverse(@)", "[0][0]", "[?@]", "[?!@]", "[*].n", "type(@)", "[0] == `null`", "not_null(@[0], @[1])", "@"}
+	check(t, func(t *rapid.T) {
+		n := rapid.IntRange(0, 5).Draw(t, "len")
+		arr := make([]jv.Val, n)
+		for i := range arr {
+			arr[i] = jv.MustParseJSON(gen.Pick(t, "elem", elems))
+		}
+		doc := jv.VObj([]jv.Member{{K: "x", V: jv.VArr(arr)}})
+		l, r := gen.Pick(t, "left", lefts), gen.Pick(t, "right", rights)
+		var text string
+		switch rapid.IntRange(0, 3).Draw(t, "join") {
+		case 0:
+			text = l + " | " + r
+		case 1:
+			text = l + "|" + r
+		case 2:
+			if strings.HasPrefix(r, "[") || r == "@" {
+				text = "(" + l + ")" + strings.TrimPrefix(r, "@")
+			} else {
+				text = "(" + l + ") | " + r
+			}
+		default:
+			text = "[" + l + " | " + r + ", " + l + "]"
+		}
+		pr := ast.Parse(text)
+		c.Case()
+		if pr.Verdict != ast.In {
+			if pr.Verdict == ast.Out {
+				t.Fatalf("HARNESS-BUG: idiom %q does not parse: %s", text, pr.Reason)
+			}
+			c.Skip("reference-parser-undetermined")
+			return
+		}
+		res, _ := model.Eval(pr.Expr, doc)
+		if res.Undet != "" {
+			c.Skip(res.Undet)
+			return
+		}
+		if modelDiff(t, c, "idioms", pr.Expr, text, doc, res) {
+			return
+		}
+		c.Label(r)
+		nulls := 0
+		for _, e := range arr {
+			if e.K == jv.Null {
+				nulls++
+			}
+		}
+		if nulls > 0 && n >= 2 {
+			c.NonTrivial(text+"\x00"+doc.JSON(), func() any { return map[string]any{"expr": text, "doc": doc.JSON(), "outcome": describe(res)} })
 		}
 	})
 }
